@@ -51,14 +51,21 @@ func (zi *zzIter) Next() *zip.File {
 }
 func (zi *zzIter) Close() error { return nil }
 
-type zzRC struct{}
+// content is modelled by its length only
+type zzRC struct{ n int }
 
 func (zzRC) Read(p []byte) (int, error) { return 0, io.EOF }
 func (zzRC) Close() error               { return nil }
 
+var (
+	zzFileLen  = map[string]int{}      // path -> content length of the files in the modelled file system
+	zzOpenPath = map[*os.File]string{} // files opened for writing
+	zzEntryLen = map[*zip.File]int{}
+)
+
 // stubs (engine only)
 func zzNewZipIterator(zipFile string) (ZipIterator, error) { return &zzIter{}, nil }
-func zzZipFileOpen(f *zip.File) (io.ReadCloser, error)     { return zzRC{}, nil }
+func zzZipFileOpen(f *zip.File) (io.ReadCloser, error)     { return zzRC{zzEntryLen[f]}, nil }
 // a minimal file system: the directories that exist (the destination's ancestors, whatever MkdirAll made) and the
 // files of the source tree can be opened; creating a file where a directory exists fails
 var zzDirs = []string{"/", "/dst", "/dst/out", "/d", "/tmp", "/s"}
@@ -95,12 +102,40 @@ func zzOsCreate(name string) (*os.File, error) {
 	if zzIsDir(name) {
 		return nil, os.ErrInvalid // "is a directory"
 	}
-	zzCreated = append(zzCreated, name)
-	return new(os.File), nil
+	return zzOsOpenFile(name, os.O_RDWR|os.O_CREATE|os.O_TRUNC, 0666)
+}
+
+func zzOsOpenFile(name string, flag int, perm os.FileMode) (*os.File, error) {
+	if zzIsDir(name) {
+		return nil, os.ErrInvalid // "is a directory"
+	}
+	if _, exists := zzFileLen[name]; !exists && flag&os.O_CREATE == 0 {
+		return nil, os.ErrNotExist
+	}
+	if flag&(os.O_WRONLY|os.O_RDWR) != 0 {
+		zzCreated = append(zzCreated, name)
+	}
+	if _, exists := zzFileLen[name]; !exists || flag&os.O_TRUNC != 0 {
+		zzFileLen[name] = 0
+	}
+	f := new(os.File)
+	zzOpenPath[f] = name
+	return f, nil
 }
 func zzOsRemove(name string) error                               { return nil }
 func zzFileClose(f *os.File) error                               { return nil }
-func zzIoCopy(dst io.Writer, src io.Reader) (int64, error)       { return 0, nil }
+func zzIoCopy(dst io.Writer, src io.Reader) (int64, error) {
+	n := 0
+	if rc, ok := src.(zzRC); ok {
+		n = rc.n
+	}
+	if f, ok := dst.(*os.File); ok {
+		if p, ok := zzOpenPath[f]; ok && zzFileLen[p] < n {
+			zzFileLen[p] = n // writing n bytes from offset 0 never shortens a file
+		}
+	}
+	return int64(n), nil
+}
 func zzZipNewWriter(w io.Writer) *zip.Writer                     { return new(zip.Writer) }
 func zzZipWriterClose(w *zip.Writer) error                       { return nil }
 func zzZipWriterCreate(w *zip.Writer, name string) (io.Writer, error) {
@@ -135,14 +170,28 @@ func zzC20Unzip() {
 		}
 		names[i] = string(b)
 	}
+	lens := make([]int, len(names))
+	pre := make([]bool, len(names))
+	for i := range names {
+		lens[i] = vChoose("contentLen", 3)
+		// the destination may already hold a (longer) file under this name from an earlier extraction
+		pre[i] = vChoose("preExisting", 2) == 1
+	}
 	if vNative() {
-		zzC20UnzipNative(names)
+		zzC20UnzipNative(names, lens, pre)
 		return
 	}
 	destDir := "/dst/out"
 	zzEntries = nil
-	for _, n := range names {
-		zzEntries = append(zzEntries, &zip.File{FileHeader: zip.FileHeader{Name: n}})
+	for i, n := range names {
+		zf := &zip.File{FileHeader: zip.FileHeader{Name: n}}
+		zzEntryLen[zf] = lens[i]
+		zzEntries = append(zzEntries, zf)
+		if pre[i] {
+			if w := filepath.Join(destDir, n); zzInside(destDir, w) && !zzIsDir(w) {
+				zzFileLen[w] = 2
+			}
+		}
 	}
 	zzMade, zzCreated = nil, nil
 	err := UnzipToFolder("/tmp/a.zip", destDir)
@@ -171,30 +220,45 @@ func zzC20Unzip() {
 				}
 			}
 			vAssert(found, "an entry inside the destination was not extracted to destDir + name")
+			// content (length): the last entry that maps to this path wins, nothing of an older file survives
+			last := -1
+			for j, m := range names {
+				if filepath.Join(destDir, m) == want && m[len(m)-1] != '/' {
+					last = j
+				}
+			}
+			vAssert(zzFileLen[want] == lens[last], "an extracted file does not have the archived content (length differs)")
 		}
 	}
 }
 
 // native twin: a real archive with these entry names, a real destination, and a look at the file system
-func zzC20UnzipNative(names []string) {
+func zzC20UnzipNative(names []string, lens []int, pre []bool) {
 	root, err := os.MkdirTemp("", "zzc20")
 	if err != nil {
 		panic("VERIF-DIVERGED: " + err.Error())
 	}
 	defer os.RemoveAll(root)
 	destDir := filepath.Join(root, "dst", "out")
+	os.MkdirAll(destDir, 0755)
 	zf := filepath.Join(root, "a.zip")
 	f, _ := os.Create(zf)
 	zw := zip.NewWriter(f)
-	for _, n := range names {
+	for i, n := range names {
 		w, err := zw.CreateHeader(&zip.FileHeader{Name: n})
 		if err == nil && !strings.HasSuffix(n, "/") {
-			w.Write([]byte("x"))
+			w.Write([]byte("xy")[:lens[i]])
+		}
+		if pre[i] {
+			if p := filepath.Join(destDir, n); zzInside(destDir, p) && p != destDir {
+				os.MkdirAll(filepath.Dir(p), 0755)
+				os.WriteFile(p, []byte("OLD-CONTENT"), 0644)
+			}
 		}
 	}
 	zw.Close()
 	f.Close()
-	UnzipToFolder(zf, destDir)
+	uerr := UnzipToFolder(zf, destDir)
 	filepath.Walk(root, func(p string, info os.FileInfo, err error) error {
 		if err != nil || p == zf || p == root {
 			return nil
@@ -204,6 +268,26 @@ func zzC20UnzipNative(names []string) {
 		}
 		return nil
 	})
+	if uerr == nil {
+		for _, n := range names {
+			if strings.HasSuffix(n, "/") {
+				continue
+			}
+			want := filepath.Join(destDir, n)
+			if !zzInside(destDir, want) {
+				continue
+			}
+			last := -1
+			for j, m := range names {
+				if filepath.Join(destDir, m) == want && !strings.HasSuffix(m, "/") {
+					last = j
+				}
+			}
+			if fi, err := os.Stat(want); err == nil && !fi.IsDir() {
+				vAssert(int(fi.Size()) == lens[last], "an extracted file does not have the archived content (length differs)")
+			}
+		}
+	}
 }
 
 // ZipFolder selects exactly the regular files admitted by the filter and the recursive flag, and names them by
